@@ -125,6 +125,24 @@ func (m *nameMap) ref(canonLogin string) (string, bool) {
 	return "", false
 }
 
+// resolve is the reference for one SPELLED login name of class canonLogin
+// under the configured auth_map_normalize: the canonical account name the
+// credentials store ends up looking for, or mapped=false when the documented
+// behaviour is a refusal (normalisation not applicable, no entry in the map).
+// Only the static table depends on the exact normal form (its keys are the
+// canonical names); the regexp tables match case-insensitively and the store
+// folds what it is given, so they are class functions.
+func (e *env) resolve(spelled, canonLogin string) (string, bool) {
+	nf, ok := docNormalize(e.norm, spelled)
+	if !ok {
+		return "", false
+	}
+	if e.nmap.kind == mapStatic && nf != canonLogin {
+		return "", false
+	}
+	return e.nmap.ref(canonLogin)
+}
+
 // invert proposes a canonical login name that maps to the account (best effort).
 func (m *nameMap) invert(p *prng.R, canonAcct string) string {
 	switch m.kind {
@@ -366,7 +384,9 @@ type env struct {
 	model *model
 }
 
-var normalizers = []string{"auto", "auto", "auto", "precis_casefold"}
+// auth_map_normalize settings; the documented folding of each is mirrored by
+// docNormalize (names_test.go).
+var normalizers = []string{"auto", "auto", "auto", "auto", "precis_casefold", "precis_casefold_email", "precis_email", "precis", "casefold", "noop"}
 
 func newEnv(p *prng.R, id string, kind mapKind) (*env, error) {
 	e := &env{id: id, model: &model{accts: map[string]*acct{}}}
@@ -459,6 +479,7 @@ type counters struct {
 	authzid, authzidSame                                   int64
 	okVariant, okMapped, refusedStale, refusedDeleted      int64
 	extNonASCII72, truncLong, authzidCoMapped              int64
+	okUnstable, sweeps, sweepAfterSuccess, bypass, primed  int64
 }
 
 func (k *counters) flush(r *rep.Reporter) {
@@ -479,6 +500,11 @@ func (k *counters) flush(r *rep.Reporter) {
 	r.Count("success_via_mapped_name", k.okMapped)
 	r.Count("refused_stale_password", k.refusedStale)
 	r.Count("refused_deleted_account", k.refusedDeleted)
+	r.Count("success_with_password_unstable_under_unicode_normalization", k.okUnstable)
+	r.Count("earlier_passwords_probed_after_change", k.sweeps)
+	r.Count("earlier_passwords_probed_after_change_following_successful_auth", k.sweepAfterSuccess)
+	r.Count("attempts_with_password_of_account_named_like_unmapped_or_remapped_login", k.bypass)
+	r.Count("successful_auth_right_before_a_change", k.primed)
 	r.Count("attempts_extending_nonascii_72_byte_password_within_72_chars", k.extNonASCII72)
 	r.Count("attempts_truncating_longer_than_72_byte_password", k.truncLong)
 }
@@ -487,7 +513,7 @@ func (k *counters) flush(r *rep.Reporter) {
 // current one, often a near miss of it (second result: kind of the attempt).
 func choosePassword(p *prng.R, a *acct, m *model, canon string) (string, string) {
 	if a != nil && a.exists {
-		switch p.Weighted([]int{11, 3, 3, 9}) {
+		switch p.Weighted([]int{11, 5, 3, 9}) {
 		case 0:
 			return a.pw, "current"
 		case 1:
@@ -525,12 +551,18 @@ func judgeAuth(c *rep.Case, e *env, mech string, o authObs, expect bool, canonLo
 		switch {
 		case !mapped:
 			cause = "name-has-no-mapping"
+			if _, classMapped := e.nmap.ref(canonLogin); classMapped {
+				cause = "name-spelling-not-folded-by=" + e.norm
+			}
 		case a == nil || (!a.exists && !a.deleted):
 			cause = "account-never-existed"
 		case !a.exists:
 			cause = "account-deleted"
 		default:
 			cause = relation(pw, a.pw, a.stale, e.model.otherPasswords(canonAcct))
+		}
+		if by := e.model.accts[canonLogin]; by != nil && by.exists && by.pw == pw && (!mapped || canonAcct != canonLogin) {
+			cause += "/password-of-account-named-like-the-login"
 		}
 		c.Violation(fmt.Sprintf("auth/accepted-wrong-password/mech=%s/%s", mech, cause),
 			fmt.Sprintf("%s accepted user %q password %q although the reference says no (%s; map %s)", mech, canonLogin, showPw(pw), cause, e.nmap.kind), wit())
@@ -544,6 +576,9 @@ func judgeAuth(c *rep.Case, e *env, mech string, o authObs, expect bool, canonLo
 			cause = "name-spelling=" + variant
 		default:
 			cause = "scheme=" + a.scheme + "/pw=" + pwKind(pw)
+			if unstable(pw) {
+				cause += "/unstable-under-unicode-normalization"
+			}
 		}
 		c.Violation(fmt.Sprintf("auth/refused-current-password/mech=%s/%s", mech, cause),
 			fmt.Sprintf("%s refused the current password of account %q (login class %q, spelling kind %s, map %s): %s", mech, canonAcct, canonLogin, variant, e.nmap.kind, o.Err), wit())
@@ -567,9 +602,150 @@ func runHistory(t *testing.T, r *rep.Reporter, c *rep.Case, idx int) {
 	}
 	shape := map[string]bool{}
 	nontrivial := false
+	lastAuthOK := map[string]bool{} // account class -> a successful authentication happened since its last change
+
+	// authPair runs one set of credentials through PLAIN and LOGIN, judges
+	// both against the reference and each other.
+	type pairRes struct {
+		expect, mapped bool
+		canonAcct      string
+		a              *acct
+	}
+	authPair := func(op, canonLogin, name, vk, pw, probe string) pairRes {
+		canonAcct, mapped := e.resolve(name, canonLogin)
+		var a *acct
+		if mapped {
+			a = e.model.accts[canonAcct]
+		}
+		expect := mapped && a != nil && a.exists && a.pw == pw
+		if a != nil && a.exists {
+			r.Distinct("password_attempt_kinds", probe+" on "+a.scheme+"/"+pwKind(a.pw))
+			if !expect && len(a.pw) == 72 && pwKind(a.pw) == "nonascii-len72" && strings.HasPrefix(pw, a.pw) && runeLen(pw) <= 72 {
+				k.extNonASCII72++
+			}
+			if !expect && len(a.pw) > 72 && strings.HasPrefix(a.pw, pw) && len(pw) >= 71 {
+				k.truncLong++
+			}
+		}
+		var po, lo authObs
+		initial := p.Chance(1, 3)
+		if p.Bool() {
+			po = runPlain(e.sasl, "", name, pw)
+			lo = runLogin(e.sasl, name, pw, initial)
+		} else {
+			lo = runLogin(e.sasl, name, pw, initial)
+			po = runPlain(e.sasl, "", name, pw)
+		}
+		k.authPlain++
+		k.authLogin++
+		ex2 := expect
+		hist = append(hist, opRec{Op: op, Name: name, Canon: canonLogin, Variant: vk, Pw: showPw(pw), PwLen: len(pw), Expect: &ex2, Plain: &po, Login: &lo,
+			Note: fmt.Sprintf("%s; reference: login class %q -> account %q (mapped=%v)", probe, canonLogin, canonAcct, mapped)})
+		judgeAuth(c, e, "PLAIN", po, expect, canonLogin, canonAcct, mapped, vk, pw, &lo.OK,
+			func() bool { return runPlain(e.sasl, "", canonLogin, pw).OK }, wit)
+		judgeAuth(c, e, "LOGIN", lo, expect, canonLogin, canonAcct, mapped, vk, pw, &po.OK,
+			func() bool { return runLogin(e.sasl, canonLogin, pw, false).OK }, wit)
+		if po.OK != lo.OK {
+			c.Violation(fmt.Sprintf("mech-disagree/decision/map=%s", e.nmap.kind),
+				fmt.Sprintf("same credentials (user %q): PLAIN ok=%v, LOGIN ok=%v", name, po.OK, lo.OK), wit())
+		} else if po.OK && (po.Identity != lo.Identity || po.Username != lo.Username) {
+			c.Violation(fmt.Sprintf("mech-disagree/identity/map=%s", e.nmap.kind),
+				fmt.Sprintf("same credentials (user %q): PLAIN reports identity %q, LOGIN %q", name, po.Identity, lo.Identity), wit())
+		}
+		if po.OK == expect && lo.OK == expect {
+			if expect {
+				k.authOK += 2
+				nontrivial = true
+				lastAuthOK[canonAcct] = true
+				if vk != "canon" {
+					k.okVariant++
+				}
+				if canonAcct != canonLogin {
+					k.okMapped++
+				}
+				if unstable(pw) {
+					k.okUnstable++
+				}
+			} else {
+				k.authRefused += 2
+				if a != nil && a.exists {
+					nontrivial = true // a live account refused a wrong password
+					for _, s := range a.stale {
+						if s == pw {
+							k.refusedStale++
+							break
+						}
+					}
+				}
+				if a != nil && a.deleted && !a.exists {
+					k.refusedDeleted++
+					nontrivial = true
+				}
+			}
+		}
+		st := "no-account"
+		if a != nil && a.exists {
+			st = "live/" + a.scheme
+		} else if a != nil && a.deleted {
+			st = "deleted"
+		}
+		shape[fmt.Sprintf("%s/%s/%s/expect=%v/%s", op, vk, st, expect, pwKind(pw))] = true
+		r.Distinct("auth_situations", fmt.Sprintf("map=%s norm=%s name=%s acct=%s expect=%v pw=%s", e.nmap.kind, e.norm, vk, st, expect, pwKind(pw)))
+		return pairRes{expect, mapped, canonAcct, a}
+	}
+	// loginFor gives a login name (class and spelling) the map sends to the account.
+	loginFor := func(canonAcct string) (string, string, string) {
+		cl := e.nmap.invert(p, canonAcct)
+		kinds := variantKinds
+		if !(e.norm == "auto" || e.norm == "precis_casefold") && p.Bool() {
+			kinds = []string{"canon"} // weak normalisers: keep the canonical spelling frequent
+		}
+		name, vk := spell(p, cl, prng.Pick(p, kinds))
+		return cl, name, vk
+	}
+	// prime: a successful authentication right before the account changes.
+	prime := func(canon string) {
+		a := e.model.accts[canon]
+		if a == nil || !a.exists || a.scheme == "bcrypt-default" && !p.Chance(1, 3) || !p.Chance(2, 3) {
+			return
+		}
+		cl, name, vk := loginFor(canon)
+		if res := authPair("auth-before-change", cl, name, vk, a.pw, "current"); res.expect {
+			k.primed++
+		}
+	}
+	// sweep: after a change every password the account class ever had (other
+	// than the current one) must be refused - in particular right after a
+	// successful authentication with the old one.
+	sweep := func(canon string) {
+		a := e.model.accts[canon]
+		if a == nil || len(a.stale) == 0 {
+			return
+		}
+		max := 3
+		if a.exists && a.scheme == "bcrypt-default" {
+			max = 1 // every verification costs a default-cost bcrypt
+		}
+		seen := map[string]bool{}
+		for i := len(a.stale) - 1; i >= 0 && max > 0; i-- {
+			old := a.stale[i]
+			if seen[old] || (a.exists && old == a.pw) {
+				continue
+			}
+			seen[old] = true
+			max--
+			cl, name, vk := loginFor(canon)
+			authPair("auth-earlier-password-after-change", cl, name, vk, old, "earlier-password")
+			k.sweeps++
+			if lastAuthOK[canon] {
+				k.sweepAfterSuccess++
+			}
+		}
+		lastAuthOK[canon] = false
+	}
 
 	for step := 0; step < nops; step++ {
-		op := p.Weighted([]int{3, 2, 1, 7})
+		op := p.Weighted([]int{3, 2, 2, 7})
 		if step == 0 {
 			op = 0
 		}
@@ -577,12 +753,24 @@ func runHistory(t *testing.T, r *rep.Reporter, c *rep.Case, idx int) {
 			op = 3
 		}
 		switch op {
-		case 0: // create
+		case 0: // create (often: re-create a deleted account)
 			canon := prng.Pick(p, e.names)
+			var gone []string
+			for _, n := range e.names {
+				if a := e.model.accts[n]; a != nil && a.deleted && !a.exists {
+					gone = append(gone, n)
+				}
+			}
+			if len(gone) > 0 && p.Chance(2, 3) {
+				canon = prng.Pick(p, gone)
+			}
 			name, vk := spell(p, canon, prng.Pick(p, variantKinds))
 			sc := prng.Pick(p, schemes)
 			pw := genPassword(p, sc.algo == pass_table.HashBcrypt)
 			existed := e.model.get(canon).exists
+			if existed {
+				prime(canon)
+			}
 			err := e.pt.CreateUserHash(name, pw, sc.algo, sc.opts)
 			rec := opRec{Op: "create", Name: name, Canon: canon, Variant: vk, Pw: showPw(pw), PwLen: len(pw), Scheme: sc.name}
 			if err == nil {
@@ -601,6 +789,7 @@ func runHistory(t *testing.T, r *rep.Reporter, c *rep.Case, idx int) {
 			}
 			hist = append(hist, rec)
 			shape["create/"+vk+"/"+sc.name+"/"+pwKind(pw)] = true
+			sweep(canon)
 		case 1: // set password (always default-cost bcrypt: slow)
 			slowBudget--
 			var canon string
@@ -611,6 +800,7 @@ func runHistory(t *testing.T, r *rep.Reporter, c *rep.Case, idx int) {
 			}
 			name, vk := spell(p, canon, prng.Pick(p, variantKinds))
 			pw := genPassword(p, true)
+			prime(canon)
 			err := e.pt.SetUserPassword(name, pw)
 			rec := opRec{Op: "set-password", Name: name, Canon: canon, Variant: vk, Pw: showPw(pw), PwLen: len(pw), Scheme: "bcrypt-default"}
 			if err == nil {
@@ -622,6 +812,7 @@ func runHistory(t *testing.T, r *rep.Reporter, c *rep.Case, idx int) {
 			}
 			hist = append(hist, rec)
 			shape["setpw/"+vk+"/"+pwKind(pw)] = true
+			sweep(canon)
 		case 2: // delete
 			var canon string
 			if ex := e.model.existing(); len(ex) > 0 && p.Chance(4, 5) {
@@ -630,6 +821,7 @@ func runHistory(t *testing.T, r *rep.Reporter, c *rep.Case, idx int) {
 				canon = prng.Pick(p, e.names)
 			}
 			name, vk := spell(p, canon, prng.Pick(p, variantKinds))
+			prime(canon)
 			err := e.pt.DeleteUser(name)
 			rec := opRec{Op: "delete", Name: name, Canon: canon, Variant: vk}
 			if err == nil {
@@ -640,9 +832,13 @@ func runHistory(t *testing.T, r *rep.Reporter, c *rep.Case, idx int) {
 			}
 			hist = append(hist, rec)
 			shape["delete/"+vk] = true
+			keep := lastAuthOK[canon]
+			sweep(canon)
+			lastAuthOK[canon] = keep // still relevant for the re-creation that may follow
 		case 3: // authenticate
 			// Target an account (mostly an existing or a deleted one), then a
-			// login name that the map sends there.
+			// login name that the map sends there - or, to probe the map's
+			// domain, the provider's account name itself / any other name.
 			var canonAcctWanted string
 			ex := e.model.existing()
 			switch {
@@ -652,92 +848,28 @@ func runHistory(t *testing.T, r *rep.Reporter, c *rep.Case, idx int) {
 				canonAcctWanted = prng.Pick(p, e.names)
 			}
 			canonLogin := e.nmap.invert(p, canonAcctWanted)
-			if p.Chance(1, 8) {
+			switch p.Intn(8) {
+			case 0:
 				canonLogin = prng.Pick(p, e.names)
+			case 1, 2:
+				canonLogin = canonAcctWanted // the provider's account name, bypassing the map
 			}
-			canonAcct, mapped := e.nmap.ref(canonLogin)
 			name, vk := spell(p, canonLogin, prng.Pick(p, variantKinds))
+			canonAcct, mapped := e.resolve(name, canonLogin)
 			var a *acct
 			if mapped {
 				a = e.model.accts[canonAcct]
 			}
 			pw, probe := choosePassword(p, a, e.model, canonAcct)
-			expect := mapped && a != nil && a.exists && a.pw == pw
-			if a != nil && a.exists {
-				r.Distinct("password_attempt_kinds", probe+" on "+a.scheme+"/"+pwKind(a.pw))
-				if !expect && len(a.pw) == 72 && pwKind(a.pw) == "nonascii-len72" && strings.HasPrefix(pw, a.pw) && runeLen(pw) <= 72 {
-					k.extNonASCII72++
-				}
-				if !expect && len(a.pw) > 72 && strings.HasPrefix(a.pw, pw) && len(pw) >= 71 {
-					k.truncLong++
-				}
+			// A name the map does not know (or sends elsewhere) together with
+			// the password of the account that bears that very name.
+			if by := e.model.accts[canonLogin]; by != nil && by.exists && (!mapped || canonAcct != canonLogin) && p.Chance(3, 5) {
+				pw, probe = by.pw, "password-of-account-named-like-the-login"
+				k.bypass++
 			}
-			primary := "PLAIN"
-			if p.Bool() {
-				primary = "LOGIN"
-			}
-			// Both mechanisms get the same credentials ("same decision and identity").
-			var po, lo authObs
-			initial := p.Chance(1, 3)
-			if primary == "PLAIN" {
-				po = runPlain(e.sasl, "", name, pw)
-				lo = runLogin(e.sasl, name, pw, initial)
-			} else {
-				lo = runLogin(e.sasl, name, pw, initial)
-				po = runPlain(e.sasl, "", name, pw)
-			}
-			k.authPlain++
-			k.authLogin++
+			res := authPair("auth", canonLogin, name, vk, pw, probe)
+			expect := res.expect
 			ex2 := expect
-			rec := opRec{Op: "auth", Name: name, Canon: canonLogin, Variant: vk, Pw: showPw(pw), PwLen: len(pw), Expect: &ex2, Plain: &po, Login: &lo,
-				Note: fmt.Sprintf("reference: login class %q -> account %q (mapped=%v)", canonLogin, canonAcct, mapped)}
-			hist = append(hist, rec)
-			judgeAuth(c, e, "PLAIN", po, expect, canonLogin, canonAcct, mapped, vk, pw, &lo.OK,
-				func() bool { return runPlain(e.sasl, "", canonLogin, pw).OK }, wit)
-			judgeAuth(c, e, "LOGIN", lo, expect, canonLogin, canonAcct, mapped, vk, pw, &po.OK,
-				func() bool { return runLogin(e.sasl, canonLogin, pw, false).OK }, wit)
-			if po.OK != lo.OK {
-				c.Violation(fmt.Sprintf("mech-disagree/decision/map=%s", e.nmap.kind),
-					fmt.Sprintf("same credentials (user %q): PLAIN ok=%v, LOGIN ok=%v", name, po.OK, lo.OK), wit())
-			} else if po.OK && (po.Identity != lo.Identity || po.Username != lo.Username) {
-				c.Violation(fmt.Sprintf("mech-disagree/identity/map=%s", e.nmap.kind),
-					fmt.Sprintf("same credentials (user %q): PLAIN reports identity %q, LOGIN %q", name, po.Identity, lo.Identity), wit())
-			}
-			if po.OK == expect && lo.OK == expect {
-				if expect {
-					k.authOK += 2
-					nontrivial = true
-					if vk != "canon" {
-						k.okVariant++
-					}
-					if canonAcct != canonLogin {
-						k.okMapped++
-					}
-				} else {
-					k.authRefused += 2
-					if a != nil && a.exists {
-						nontrivial = true // a live account refused a wrong password
-						for _, s := range a.stale {
-							if s == pw {
-								k.refusedStale++
-								break
-							}
-						}
-					}
-					if a != nil && a.deleted && !a.exists {
-						k.refusedDeleted++
-						nontrivial = true
-					}
-				}
-			}
-			st := "no-account"
-			if a != nil && a.exists {
-				st = "live/" + a.scheme
-			} else if a != nil && a.deleted {
-				st = "deleted"
-			}
-			shape[fmt.Sprintf("auth/%s/%s/expect=%v/%s", vk, st, expect, pwKind(pw))] = true
-			r.Distinct("auth_situations", fmt.Sprintf("map=%s name=%s acct=%s expect=%v pw=%s", e.nmap.kind, vk, st, expect, pwKind(pw)))
 
 			// Authorization identity clause (PLAIN only carries one).
 			// Hostile scenario first: a co-owner of a shared account (another
